@@ -11,25 +11,25 @@ TABLE = {
     "C01": ("typed builder-program generation (Hypothesis) + independent reference validator over the serialized JSON",
             "Generated well-typed builder programs (all builder kinds, nesting, non-local wires, linear types, partial multi-output use) are executed against the real builders and the emitted document is judged by a reference validator re-implemented from the specification and the Rust sources; random search, no absence claim.",
             "Trusted: the reference validator in /verif/vlib/refval.py (calibrated on the upstream test programs and on seeded invalid documents), the program generator's typing discipline."),
-    "C02": ("round-trip + independent observation model over generated builder programs and mutation histories",
+    "C02": ("round-trip + independent observation model over generated builder programs and mutation histories + coverage-guided stage in the thorough tier (atheris/libFuzzer driving the same Hypothesis strategies through fuzz_one_input)",
             "load_json(to_json(h)) is compared as JSON value and by an observation function (ops by encoded form, hierarchy, metadata, link multisets) under the order-preserving renumbering; generated histories include deletions, multi-links, order links, metadata of arbitrary JSON values.",
             "Trusted: observation function over the public query API; reference encoder for node ops."),
     "C03": ("JSON-schema validation + index-sanity + reference edge-offset model over generated HUGRs/packages/extensions",
             "Every emitted document is validated against the published strict schema with jsonschema, index sanity is computed on the raw JSON, and the edge multiset is recomputed from links() and a reference signature function.",
             "Trusted: jsonschema implementation, published schema file, reference port-offset function (vlib/refsig.py)."),
-    "C04": ("stateful model-based testing (history of store operations vs. sequential port-multigraph model)",
+    "C04": ("stateful model-based testing (history of store operations vs. sequential port-multigraph model) + coverage-guided stage in the thorough tier (atheris/libFuzzer driving the same Hypothesis strategies through fuzz_one_input)",
             "Random histories of add/link/delete/insert operations on hugr.Hugr are mirrored on a plain sequential model; every query is compared after every step.",
             "Trusted: the sequential model in vlib/props/c04.py."),
     "C05": ("round-trip + reference encoder + attribute-wise equality over generated type/value/op ASTs; foreign-document metamorphic re-encoding",
             "Generated ASTs are interpreted into hugr objects; their encoding must equal an independent reference encoder, decode(encode(x)) must re-encode identically, keep derived facts and equal x attribute by attribute; schema-valid foreign-style documents must survive load/save.",
             "Trusted: reference encoder (vlib/refenc.py) written from the schema and Rust serde types."),
-    "C06": ("differential testing of op signatures/port kinds against a reference signature algebra over generated ops",
+    "C06": ("differential testing of op signatures/port kinds against a reference signature algebra over generated ops + coverage-guided stage in the thorough tier (atheris/libFuzzer driving the same Hypothesis strategies through fuzz_one_input)",
             "Each generated op's outer/inner signature, port kinds/types and output count are compared with ref_sig computed from the op's AST per the specification's typing rules.",
             "Trusted: reference signature algebra (vlib/refsig.py)."),
-    "C07": ("differential testing of type_bound against a reference bound function + exhaustive enumeration of TypeBound.join",
+    "C07": ("differential testing of type_bound against a reference bound function + exhaustive enumeration of TypeBound.join + coverage-guided stage in the thorough tier (atheris/libFuzzer driving the same Hypothesis strategies through fuzz_one_input)",
             "Generated types (deep nesting, extension types with explicit/from-params bounds, std containers) are compared with a reference bound; join is enumerated exhaustively on short sequences.",
             "Trusted: reference bound function over the type AST."),
-    "C08": ("metamorphic/isomorphism check of insert_hugr over generated HUGR pairs",
+    "C08": ("metamorphic/isomorphism check of insert_hugr over generated HUGR pairs + coverage-guided stage in the thorough tier (atheris/libFuzzer driving the same Hypothesis strategies through fuzz_one_input)",
             "For generated pairs (A,B) and parents, the returned mapping is checked to be an isomorphism onto the inserted subgraph, with A's old part and B unchanged.",
             "Trusted: observation function over the public query API."),
     "C09": ("round-trip over generated packages/configs + exhaustive enumeration of the 2^16 header byte pairs, truncations and magic corruptions",
@@ -44,28 +44,28 @@ TABLE = {
     "C12": ("lock-step structural oracle over the exported model of generated module programs",
             "The exported hugr-model tree is walked in lock-step with the HUGR: region structure, port lists, link-name/edge equivalence, function symbols, order hints, metadata; model class attributes are compared with the names read by the Rust binding.",
             "Trusted: the exporter contract as re-stated in vlib/props/c12.py from export.rs/import.rs/python.rs."),
-    "C13": ("fault-injection into generated builder programs: exactly one inconsistency must raise",
+    "C13": ("fault-injection into generated builder programs: exactly one inconsistency must raise + coverage-guided stage in the thorough tier (atheris/libFuzzer driving the same Hypothesis strategies through fuzz_one_input)",
             "A well-formed generated program gets one injected inconsistency from a catalogue; building it must raise (documented class where documented) while the un-injected twin builds.",
             "Trusted: the inconsistency catalogue reflects the property statement."),
-    "C14": ("differential testing of Value.type_ against a reference typing of value ASTs + reference constant validator",
+    "C14": ("differential testing of Value.type_ against a reference typing of value ASTs + reference constant validator + coverage-guided stage in the thorough tier (atheris/libFuzzer driving the same Hypothesis strategies through fuzz_one_input)",
             "Generated value ASTs: reported type vs ref_typeof; serialized value must inhabit the type under the reference const validator; std extension constants are checked structurally.",
             "Trusted: ref_typeof / const validator in vlib."),
-    "C15": ("stateful differential testing: TrackedDfg vs explicit-wire Dfg driven in parallel by generated histories",
+    "C15": ("stateful differential testing: TrackedDfg vs explicit-wire Dfg driven in parallel by generated histories + coverage-guided stage in the thorough tier (atheris/libFuzzer driving the same Hypothesis strategies through fuzz_one_input)",
             "Histories of track/untrack/add/extend/set_outputs are applied to a TrackedDfg and, via the statement's reference index table, to a plain Dfg with explicit wires; the two HUGRs must be identical.",
             "Trusted: the reference index->wire table semantics taken from the property statement."),
-    "C16": ("exhaustive enumeration of index/slice space for small n + Hypothesis for large n + builder-handle checks on generated programs",
+    "C16": ("exhaustive enumeration of index/slice space for small n + Hypothesis for large n + builder-handle checks on generated programs + coverage-guided stage in the thorough tier (atheris/libFuzzer driving the same Hypothesis strategies through fuzz_one_input)",
             "Node handle indexing/slicing/iteration compared with range(n) semantics (with the two stated deviations); handles returned by builders must enumerate exactly the op's value outputs.",
             "Trusted: Python's range/slice semantics as reference."),
     "C17": ("exhaustive structural comparison of regenerated vs published schemas + generated differential (pydantic vs jsonschema) on mutated documents",
             "The four schema files are regenerated from the models and compared node by node; mutated documents must be accepted/rejected identically by pydantic and jsonschema.",
             "Trusted: jsonschema; normalisation of additionalProperties:true (pydantic version artefact)."),
-    "C18": ("stateful model-based testing (Hypothesis list-of-steps + RuleBasedStateMachine) against a set-of-pairs model",
+    "C18": ("stateful model-based testing (Hypothesis list-of-steps + RuleBasedStateMachine) against a set-of-pairs model + coverage-guided stage in the thorough tier (atheris/libFuzzer driving the same Hypothesis strategies through fuzz_one_input)",
             "Random operation histories over a key pool with falsy keys; forward/backward views, length, iteration and lookups compared with a reference model after every step; constructor checked on arbitrary small mappings.",
             "Trusted: the reference model (a dict maintained by the displacement rule of the statement)."),
-    "C19": ("differential testing of shot-result conversion against a reference replay model over generated shots",
+    "C19": ("differential testing of shot-result conversion against a reference replay model over generated shots + coverage-guided stage in the thorough tier (atheris/libFuzzer driving the same Hypothesis strategies through fuzz_one_input)",
             "Generated shots (interleaved whole-register and indexed writes, bools, invalid values) and multi-shot results are converted and compared with an in-order replay reference.",
             "Trusted: the replay model written from the statement/module docstring."),
-    "C20": ("structural oracle over the parsed DOT source of generated HUGRs + metamorphic relation across render configs",
+    "C20": ("structural oracle over the parsed DOT source of generated HUGRs + metamorphic relation across render configs + coverage-guided stage in the thorough tier (atheris/libFuzzer driving the same Hypothesis strategies through fuzz_one_input)",
             "DOT source is parsed by an independent tolerant parser; node statements, port cells, clusters and edge statements are matched against the HUGR; config changes may only alter colours/op-name prefixes.",
             "Trusted: the DOT statement parser in vlib/props/c20.py."),
 }
